@@ -269,14 +269,23 @@ def header_mismatch(ctx, work, k):
         else:
             other["filters"] = other["filters"] + [["q99", "x"]]
         tag = f"hm{k}{kinds.index(kind)}"
-        p1 = vcfgen.materialise(spec, pathlib.Path(work) / f"{tag}a", "vcf.gz+tbi", records=recs[:half])
-        p2 = vcfgen.materialise(other, pathlib.Path(work) / f"{tag}b", "vcf.gz+tbi", records=other["records"][half:])
+        # two or three files; the deviating one first, in the middle or last in path order (the scan results are sorted by path)
+        nfiles = rng.choice([2, 3, 3])
+        odd = rng.randrange(nfiles) if kinds.index(kind) % 2 else (1 if nfiles == 3 else rng.randrange(2))
+        cuts = [0, half, len(recs)] if nfiles == 2 else [0, len(recs) // 3, 2 * len(recs) // 3, len(recs)]
+        paths = []
+        for i in range(nfiles):
+            src_spec = other if i == odd else spec
+            paths.append(vcfgen.materialise(src_spec, pathlib.Path(work) / f"{tag}{'abc'[i]}", "vcf.gz+tbi",
+                                            records=src_spec["records"][cuts[i]:cuts[i + 1]]))
         out = pathlib.Path(work) / f"{tag}.zarr"
-        inp = {"vcf_spec": spec, "perturbation": kind}
-        ctx.case(("header", k, kind), True)
+        inp = {"vcf_spec": spec, "perturbation": kind, "files": nfiles, "deviating_file_in_path_order": odd}
+        ctx.case(("header", k, kind, nfiles, odd), True)
         ctx.count("header_" + kind.replace(" ", "_"))
+        ctx.count(f"header_{nfiles}_files_odd_{['first', 'middle', 'last'][0 if odd == 0 else (2 if odd == nfiles - 1 else 1)]}")
+        rng.shuffle(paths)
         try:
-            vcf2zarr.convert([p1, p2] if rng.random() < 0.5 else [p2, p1], out, worker_processes=0)
+            vcf2zarr.convert(paths, out, worker_processes=0)
             ctx.violate(f"files with incompatible headers ({kind}) were accepted", inp, "ValueError", "accepted")
         except ValueError:
             pass
